@@ -253,7 +253,18 @@ proof fn lemma_spliced_len(dst: Seq<u8>, a: int, b: int, with: Seq<u8>, max: int
 // ---------------------------------------------------------------- C09 history lemma
 // One Block1 step on the buffer, as the step contract of maybe_handle_request_block1 states it
 pub open spec fn b1_buf(buf: Seq<u8>, num: int, s: int, p: Seq<u8>) -> Seq<u8> { spliced(buf, num * s, num * s + s, p) }
-pub open spec fn b1_delivered(buf: Seq<u8>, num: int, s: int, p: Seq<u8>) -> Seq<u8> { b1_buf(buf, num, s, p).take(num * s + p.len()) }
+// what the final block hands to the application: everything before the block's offset (zero-filled if the buffer is
+// shorter) followed by the block's payload - the body ends with the final block
+pub open spec fn b1_delivered(buf: Seq<u8>, num: int, s: int, p: Seq<u8>) -> Seq<u8> { zero_ext(buf, num * s).subrange(0, num * s) + p }
+// ... which is what remains of ANY splice [a, b) := p (b >= a) after truncating at a + |p|
+proof fn lemma_splice_take(buf: Seq<u8>, a: int, b: int, p: Seq<u8>)
+    requires 0 <= a <= b
+    ensures spliced(buf, a, b, p).take(a + p.len()) == zero_ext(buf, a).subrange(0, a) + p
+{
+    let d = zero_ext(buf, b);
+    assert(d.subrange(0, a) =~= zero_ext(buf, a).subrange(0, a));
+    assert(spliced(buf, a, b, p).take(a + p.len()) =~= d.subrange(0, a) + p);
+}
 // buffer after the non-final blocks 0..j of body `body`, each delivered dup(i) >= 1 times in a row, starting from ANY
 // buffer x0 (what an abandoned earlier upload left behind)
 pub open spec fn after_blocks(x0: Seq<u8>, body: Seq<u8>, s: int, j: int) -> Seq<u8>
@@ -315,10 +326,7 @@ proof fn theorem_c09_upload_delivers_body(x0: Seq<u8>, body: Seq<u8>, s: int, k:
     let buf = after_blocks(x0, body, s, k);
     let p = body.subrange(k * s, body.len() as int);
     let d = zero_ext(buf, k * s + s);
-    let full = b1_buf(buf, k, s, p);
-    assert(full == d.subrange(0, k * s) + p + d.subrange(k * s + s, d.len() as int));
-    assert(d.subrange(0, k * s) =~= buf.subrange(0, k * s));
-    assert(full.take(k * s + p.len()) =~= body.subrange(0, k * s) + p);
+    assert(zero_ext(buf, k * s) == buf);
     assert(body.subrange(0, k * s) + p =~= body);
 }
 
@@ -583,21 +591,26 @@ def build(repo):
             old(request).response is Some ==> same_correlation(final(request).response->0.message, old(request).response->0.message),
             // ---- the Block1 step.  b = decoded Block1 option, p = payload, off = byte offset of the block,
             //      buf = the buffer with [off, off+size) replaced by p (zero-extended if needed)
-            // C11: a block whose end lies more than 16 KiB beyond the buffer is rejected, buffered data unchanged
+            // C11: a block whose offset lies more than 16 KiB beyond the buffered data is rejected, buffered data unchanged
             ({ // @clause reject-far-block @props C11
                let b = first_block(opts_view(old(request).message.options), 27);
-               b is Some && (b->0.num as int) * sz(b->0.size_exponent) + sz(b->0.size_exponent) > buf_of(*old(state)).len() + 16384
+               b is Some && (b->0.num as int) * sz(b->0.size_exponent) > buf_of(*old(state)).len() + 16384
                    ==> r is Err && buf_of(*final(state)) == buf_of(*old(state)) && same_msg(final(request).message, old(request).message) }),
+            // C11: whenever a block is rejected the buffered data is unchanged
+            ({ // @clause rejected-unchanged @props C11
+               let b = first_block(opts_view(old(request).message.options), 27);
+               b is Some && r is Err && old(request).response is Some ==> buf_of(*final(state)) == buf_of(*old(state)) }),
             // C11: an accepted block grows the buffer by at most 16 KiB plus its own payload
             ({ // @clause bounded-growth @props C11
                let b = first_block(opts_view(old(request).message.options), 27); let p = old(request).message.payload@;
-               b is Some && r is Ok ==> b1_buf(buf_of(*old(state)), b->0.num as int, sz(b->0.size_exponent), p).len() <= buf_of(*old(state)).len() + 16384 + p.len()
+               b is Some && r is Ok && b->0.more ==> buf_of(*final(state)).len() <= buf_of(*old(state)).len() + 16384 + p.len()
                    && old(request).response is Some }),
             // C09: a non-final block is buffered and answered 2.31 Continue + Block1; the application is not reached
             ({ // @clause nonfinal-buffered-continue @props C09
                let b = first_block(opts_view(old(request).message.options), 27); let p = old(request).message.payload@;
                b is Some && r is Ok && b->0.more ==> r->Ok_0 && final(state).cached_request_payload is Some
-                   && buf_of(*final(state)) == b1_buf(buf_of(*old(state)), b->0.num as int, sz(b->0.size_exponent), p)
+                   // (a non-final block carries exactly `size` bytes, RFC 7959 2.2; nothing is claimed about the buffer for a short one)
+                   && (p.len() == sz(b->0.size_exponent) ==> buf_of(*final(state)) == b1_buf(buf_of(*old(state)), b->0.num as int, sz(b->0.size_exponent), p))
                    && same_msg(final(request).message, old(request).message)
                    && final(request).response->0.message.header.code == MessageClass::Response(ResponseType::Continue)
                    && final(request).response->0.message.payload@ == old(request).response->0.message.payload@
@@ -623,6 +636,7 @@ def build(repo):
                let b = first_block(opts_view(old(request).message.options), 27);
                let ov = overhead_of(old(request).message) as int; let m = max_total_message_size as int;
                b is Some && old(request).response is Some && opts_encodable(old(request).message)
+                   && old(request).message.payload@.len() <= sz(b->0.size_exponent)
                    && (b->0.num as int) * sz(b->0.size_exponent) + sz(b->0.size_exponent) <= buf_of(*old(state)).len() + 16384
                    && sz(b->0.size_exponent) + ov + 32 <= m && m <= 1280 ==> r is Ok }),
             // C09 "exactly once": a final block with num > 0 that finds no upload in progress (the final block
